@@ -272,3 +272,35 @@ def replay_c01(model, params, clause, info):
     bad = [v for v in r["violations"] if not any(p.fullmatch("bounded:" + v["key"]) for p in pats)]
     return {"violates": bool(bad), "detail": "; ".join(f"{v['key']}: {v['detail']}" for v in bad[:5])[:700] or "exact GP predictions agree with the dense conditional on the real code",
             "entry": {"module": "contracts.C01_exact_posterior", "function": "replay_c01", "args": [model, list(params), clause, info]}}
+
+
+@case("C01", clause="predictive_covar_fast", expand=lambda ix: [(br, kind, detach) for br in (0, 1) for kind in ("tensor", "linop") for detach in (True, False)],
+      replay=lambda *a: replay_c01(*a),
+      functions=[f"{PS}.exact_predictive_covar", f"{PS}.covar_cache", f"{PS}._exact_predictive_covar_inv_quad_form_cache", f"{PS}._exact_predictive_covar_inv_quad_form_root"])
+def predictive_covar_fast(c, br, kind, detach):
+    """fast_pred_var on: with R the root the dependency returns for the inverse of the train covariance (callee contract: R R^T = (Kxx + S)^-1, exact at full
+    rank), the covariance is K** - (K*x R)(K*x R)^T, and the strategy remembers the test-train block it was asked about"""
+    it, ctx = c.it, c.ctx
+    n, s, B, r = c.size("n"), c.size("s"), c.size("B"), c.size("r")
+    bs = [B.t] if br else []
+    R = sym_tensor("inverse_root", bs + [n.t, r.t])
+    asked = []
+    root_holder = Stub("root_inv_decomposition()", attrs={"root": R})
+    A = Stub("lik_train_train_covar", methods={"root_inv_decomposition": lambda *a, **k: (asked.append(1), root_holder)[1]}, isa=("LinearOperator",))
+    o = strategy(c, n.t, lik_train_train_covar=A)
+    setting(c, "fast_pred_var", "_state", TRUE)
+    setting(c, "skip_posterior_variances", "_state", FALSE)
+    setting(c, "detach_test_caches", "_state", VBool(detach))
+    TT = sym_tensor("test_test_covar", bs + [s.t, s.t], is_linop=(kind != "tensor"))
+    T = sym_tensor("test_train_covar", bs + [s.t, n.t], is_linop=True)
+    res = it.call(ctx, c.getattr(o, "exact_predictive_covar"), [TT, T], {})
+    b = [ivar("b") for _ in bs]
+    i, j = ivar("i"), ivar("j")
+    for v, e in zip(b + [i, j], bs + [s.t, s.t]):
+        c.assume(z3.And(v >= 0, v < e))
+    c.prove("covar_fast.one_inverse_root_of_the_likelihood_train_covariance", z3.BoolVal(len(asked) == 1))
+    c.prove("covar_fast.remembers_the_test_train_block", z3.BoolVal(o.fields.get("_last_test_train_covar") is T))
+    c.prove("covar_fast.shape", z3.And(z3.BoolVal(len(res.dims) == br + 2), res.dims[-2].size == s.t, res.dims[-1].size == s.t) if len(res.dims) == br + 2 else z3.BoolVal(False))
+    if len(res.dims) == br + 2:
+        half = lambda row, p: mk_sum(lambda k: T.at(b + [row, k]) * R.at(b + [k, p]), n.t)  # noqa: E731
+        c.prove("covar_fast.is_Ktt_minus_(Ktx R)(Ktx R)^T", res.at_dims(b + [i, j]) == TT.at(b + [i, j]) - mk_sum(lambda p: half(i, p) * half(j, p), r.t))
